@@ -1539,6 +1539,32 @@ def cache_policy(repo, tier):
     import ast
     from pyvc.flow import ground_obligation
     uses = []
+    owner_q = roles_of(repo)["_get_round_keys"][0]
+    # private helpers of the owner: module-level functions without a role of their own that are referenced ONLY from the owner (or
+    # from such helpers) anywhere in the package -- they are executed in place when the owner is verified (no contract: inlined), so
+    # their stores carry the owner's cache-invariant obligation
+    amod = loader.module(AES, repo)
+    role_fns = {q for (q, _g) in roles_of(repo).values()}
+    owners = {owner_q}
+    elsewhere = "".join(loader.module(rel, repo).source for rel in loader.all_package_files(repo) if rel != AES)
+    for _round in range(4):
+        grew = False
+        for q, fn in amod.functions.items():
+            if q in owners or "." in q or q in role_fns or q in elsewhere:
+                continue
+            ref_in = set()
+            for q2, fn2 in amod.functions.items():
+                if "." in q2:
+                    continue
+                if any(isinstance(n, ast.Name) and n.id == q for n in ast.walk(fn2)) and q2 != q:
+                    ref_in.add(q2)
+            top = any(isinstance(n, ast.Name) and n.id == q for st_ in amod.tree.body if not isinstance(st_, (ast.FunctionDef, ast.AsyncFunctionDef))
+                      for n in ast.walk(st_))
+            if ref_in and ref_in <= owners and not top:
+                owners.add(q)
+                grew = True
+        if not grew:
+            break
     for rel in loader.all_package_files(repo):
         mod = loader.module(rel, repo)
         if "_ROUND_KEY_CACHE" not in mod.source:
@@ -1553,12 +1579,50 @@ def cache_policy(repo, tier):
                 q = owner.get(id(n), "<module>")
                 if rel == AES and q == "<module>" and isinstance(n, ast.Name) and isinstance(n.ctx, ast.Store):
                     continue        # the module-level definition
-                if rel == AES and q == roles_of(repo)["_get_round_keys"][0]:
+                if rel == AES and q in owners:
                     continue
                 uses.append(f"{rel.split('/')[-1]}:{n.lineno} in {q}")
     ob = ground_obligation("C20/_pypdf_aes_fallback.py::_ROUND_KEY_CACHE/policy#only-_get_round_keys-touches-the-cache", not uses,
                            "other uses: " + ", ".join(uses[:5]), AES, kind="policy", definite=False)
     return {"obligations": [ob]}
+
+
+def frame_policy(repo, tier):
+    """Re-entrancy of the drivers ("for every key and block" quantifies over calls, also over calls that are in progress at the
+    same time): no function reachable from a driver / a CryptAES method writes an object that outlives the call (module-level
+    scratch state, closure variables, mutable defaults, function attributes, the cached round keys) -- contracts/c20_frame.py.
+    Keyed caches written by the round-key provider are governed by the cache-invariant obligations.  Decided by code shape:
+    a site found is `unknown`, the replayer's `concurrent` scope decides."""
+    from pyvc.flow import ground_obligation
+    from contracts import c20_frame as FR
+    mod = loader.module(AES, repo)
+    A = FR.Analysis(mod)
+    roles = roles_of(repo)
+    owner = roles.get("_get_round_keys", (None,))[0]
+    obls = []
+    for role in DRIVERS:
+        q = roles.get(role, (None,))[0]
+        if q is None or q not in A.fns:
+            continue
+        sites = A.persistent_writes(q, owner)
+        obls.append(ground_obligation(f"C20/_pypdf_aes_fallback.py::{role}/policy#keeps-no-working-state-across-calls", not sites,
+                                      "writes to objects that outlive the call: " + "; ".join(sites[:4]), AES, kind="policy", definite=False))
+    # the CryptAES methods: the functions the installation code defines (nested) or refers to (module level) besides the drivers
+    import ast
+    driver_qs = {roles.get(r, (None,))[0] for r in DRIVERS}
+    methods = [q for q in A.fns if ".<locals>." in q]
+    inst = mod.functions.get("patch_pypdf_fallback_aes")
+    if inst is not None:
+        methods += [n.id for n in ast.walk(inst) if isinstance(n, ast.Name) and isinstance(n.ctx, ast.Load) and n.id in A.fns
+                    and n.id not in driver_qs and n.id not in methods]
+    sites = []
+    for q in methods:
+        sites += [x for x in A.persistent_writes(q, owner, constructor=q.endswith("init") or q.endswith("init__")) if x not in sites]
+    ok = bool(methods) and not sites
+    why = "writes to objects that outlive the call: " + "; ".join(sites[:4]) if methods else "the functions installed as CryptAES methods were not found"
+    obls.append(ground_obligation("C20/_pypdf_aes_fallback.py::CryptAES/policy#keeps-no-working-state-across-calls", ok, why, AES,
+                                  kind="policy", definite=False))
+    return {"obligations": obls}
 
 
 def _guarded(fn, subject):
@@ -1575,7 +1639,7 @@ def _guarded(fn, subject):
 
 
 EXTRA = [_guarded(table_checks, "tables"), _guarded(install_site, "patch_pypdf_fallback_aes"), _guarded(cache_policy, "_ROUND_KEY_CACHE"),
-         _guarded(chunks_iteration, "_chunks")]
+         _guarded(chunks_iteration, "_chunks"), _guarded(frame_policy, "drivers")]
 LOCK_OPTIONAL_KINDS = ("slice-store-in-range", "call-pre")       # exist only while the code has that store / call form
 REPLAY_UNKNOWN = True
 from contracts.c20_modes import C20Executor as EXECUTOR  # noqa: E402
